@@ -415,6 +415,14 @@ func runC16(p *core.Prog, r *core.Report, tier string) {
 	}
 	r.Count("divisions by a quotient", nJ)
 	r.Floor("C16.j divisions by a quotient", nJ, 1)
+	// ---- (k) a configurator handed out with a nil error is a usable object (shared with C12.h) ----
+	nK := checkConfiguratorObjects(p, r, ds, "C16.k", p.FuncsIn("services/blockrelay"))
+	r.Floor("C16.k configurator constructions", nK, 2)
+
+	// ---- (l) inserts into nested maps find the inner map in place ----
+	nL := checkNestedMapWrites(p, r, ds, "C16.l", p.SrcFuncs())
+	r.Floor("C16.l nested map inserts", nL, 3)
+
 	r.Assumptions = append(r.Assumptions, "quotients of chain-specification constants held in service fields (sync committee size / subnet count / target aggregators) are not zero on a real chain")
 	sort.Strings(r.OutOfScope)
 }
